@@ -19,20 +19,29 @@ from tools import common
 LEVEL = "proof"
 MANIFEST = dict(
     category="proof",
-    text="Lean 4 theorems over a model of GenFunctions.define_function_suffix (default-argument clones, template clones, "
-         "overload numbering, bufferify and fortran_generic clones), Namify and util.un_camel: entry-point counts, pairwise "
-         "distinct C and Fortran names for every overload set inside the stated domain, generic-interface membership, "
-         "template-determined names, un_camel characterisation; the model is tied to generate.py/ast.py/util.py on every run by "
-         "differential correspondence (exhaustive below a size bound, seeded sampling above); an implementation-only oracle "
-         "generates the wrappers and scans them for duplicate or missing names.",
+    text="Lean 4 theorems (all lists of declarations, all scopes) over a model of GenFunctions.define_function_suffix (default-argument "
+         "clones, function-template clones incl. per-instantiation default variants, class-template instantiation scopes and "
+         "template_function2 members, overload numbering, bufferify and fortran_generic clones), Namify, util.un_camel, the wrapf "
+         "generic tables (module interfaces and per-class type-bound generics) and the wrapp/wrapl method tables. Proved: un_camel "
+         "characterisation (inserts, no upper case, idempotent); entry-point counts for C and Fortran; C_name/F_name predictability from "
+         "the name templates and class-instantiation scope; pairwise distinct C symbols and Fortran specifics of a scope for the whole "
+         "pipeline (CoreOK + token suffixes), of a library across scopes (ScopesSep) and of a Fortran module across the scopes folded "
+         "into it (FScopesSep), instantiations of one class template are separated scopes; generic interfaces / type-bound generics "
+         "list exactly their scope's specifics, each once; generic interface names of a module distinct; PyMethodDef and luaL_Reg keys "
+         "of a scope distinct, dispatcher keys carry no suffix. module_entities_distinct_partial: specifics+interface names+other "
+         "entities distinct given that no interface name equals a specific and that derived-type/enum names (not modelled) are apart. "
+         "Negation witnesses for the known ways to leave the domain (explicit _1, name like an auto suffix, overloaded class-template "
+         "members). The model is tied to the code on every run; an implementation-only oracle compares generated names with documented ones.",
     design="3 C08",
-    note="Trusted: Lean kernel; the hand-written model (validated on generated inputs only); ASCII identifiers. Distinctness of "
-         "C symbols and Fortran specifics is proved for the whole modelled pipeline including `_bufferify` and fortran_generic "
-         "clones and across scopes, inside the stated domain (CoreOK, explicit suffixes single `_token`s, templated functions "
-         "without bufferify/fortran_generic, separated scopes); the known ways to leave the domain are proved as negation "
-         "witnesses. Class template instantiation, return_this, CFI, assumed-rank and fortran_generic_c variants are not "
-         "modelled; documented names are taken from regression/reference and corpus/c08_uncamel.txt.",
-    technique="Lean 4 proof by induction over the expansion + differential correspondence model/implementation + output scan",
+    note="Trusted: Lean kernel (axioms propext, Classical.choice, Quot.sound); the hand-written model Model/Names.lean, validated only "
+         "on generated inputs by differential correspondence (records of generate_functions per scope, un_camel, name templates, generic "
+         "tables and type-bound generics parsed from generated Fortran, PyMethodDef/luaL_Reg keys parsed from generated sources); ASCII "
+         "identifiers. Modelled, not verified: return_this, CFI, assumed-rank, fortran_generic_c variants, format overrides of C_name "
+         "etc., derived-type and enumeration names are outside the model. Documented names for the oracle: regression/reference/<config> "
+         "of the checkout, corpus/c08_uncamel.txt, the name templates of docs/reference.rst re-implemented in tools/props/c08.py.",
+    technique="Lean 4 proof by induction over the expansion (pairwise invariant of the numbering loop, unique parsing of `_token` suffixes, "
+              "prefix-free scope stems) + differential correspondence model/implementation (exhaustive below a size bound, seeded "
+              "sampling above) + generation and scan of C/Fortran/Python/Lua outputs against documented names",
 )
 MODULES = ["ShroudVerif.Props.C08"]
 THEOREMS = {
@@ -50,18 +59,27 @@ THEOREMS = {
         "Shroud.Names.fortran_names_distinct",
         "Shroud.Names.explicit_suffix_clash",
         "Shroud.Names.distinct_underscore_forms_insufficient",
+        "Shroud.Names.class_template_overloads_clash",
         "Shroud.Names.expand_c_names_eq",
         "Shroud.Names.expand_f_names_eq",
         "Shroud.Names.expand_c_names_distinct",
         "Shroud.Names.expand_fortran_names_distinct",
-        "Shroud.Names.expand_name_mem",
+        "Shroud.Names.expand_f_names_nodup",
+        "Shroud.Names.expand_mem",
         "Shroud.Names.program_c_names_distinct",
         "Shroud.Names.program_c_names_distinct'",
+        "Shroud.Names.module_specifics_distinct",
+        "Shroud.Names.module_generic_keys_distinct",
+        "Shroud.Names.module_entities_distinct_partial",
+        "Shroud.Names.class_instantiation_scope",
+        "Shroud.Names.class_instantiations_separated",
         "Shroud.Names.generic_interface_members",
-        "Shroud.Names.expand_f_names_nodup",
         "Shroud.Names.generic_members_distinct",
         "Shroud.Names.type_bound_generic_members_distinct",
         "Shroud.Names.interface_members_distinct",
+        "Shroud.Names.py_table_keys_distinct",
+        "Shroud.Names.lua_table_keys_distinct",
+        "Shroud.Names.py_dispatch_keys_are_names",
         "Shroud.Names.c_name_predictable",
         "Shroud.Names.f_names_predictable",
     ]
@@ -71,13 +89,14 @@ NATIVE = ["int", "long", "float", "double"]
 
 
 # ------------------------------------------------------------------ descriptions
-def mkfn(name, nparams=1, ndefaults=0, suffix=None, dsuffix=(), tinst=(), generics=(), hasBuf=False, isCtor=False):
+def mkfn(name, nparams=1, ndefaults=0, suffix=None, dsuffix=(), tinst=(), generics=(), hasBuf=False, isCtor=False,
+         usesT=False):
     # fortran_generic on a function whose C prototype "order" differs from the generic's (no required parameter,
     # or a second template parameter) makes generic_function add a fortran_generic_c variant: not modelled.
     if nparams - ndefaults == 0 or any(len(t["types"]) > 1 for t in tinst):
         generics = ()
     return dict(name=name, nparams=nparams, ndefaults=ndefaults, suffix=suffix, dsuffix=list(dsuffix),
-                tinst=[dict(t) for t in tinst], generics=list(generics), hasBuf=hasBuf, isCtor=isCtor)
+                tinst=[dict(t) for t in tinst], generics=list(generics), hasBuf=hasBuf, isCtor=isCtor, usesT=usesT)
 
 
 def fn_decl(fn, ov, clsname=None):
@@ -88,7 +107,7 @@ def fn_decl(fn, ov, clsname=None):
     for i in range(fn["nparams"]):
         if fn["hasBuf"] and i == 0:
             p = "const std::string & a0"
-        elif fn["tinst"] and i == 0:
+        elif (fn["tinst"] or fn.get("usesT")) and i == 0:
             p = "T a0"
         elif fn["tinst"] and i == 1 and ntargs == 2:
             p = "U a1"
@@ -157,8 +176,27 @@ def normalize(prog):
     """JSON round trip turns tuples into lists; restore the hashable forms."""
     prog["wrap"] = tuple(prog["wrap"])
     prog.setdefault("cprefix", None)
-    prog["containers"] = [dict(path=[tuple(s) for s in c["path"]], fns=c["fns"]) for c in prog["containers"]]
+    prog["containers"] = [dict(c, path=[tuple(s) for s in c["path"]]) for c in prog["containers"]]
+    for c in prog["containers"]:
+        for f in c["fns"]:
+            f.setdefault("usesT", False)
     return prog
+
+
+def inst_suffix(t, i, klass=False):
+    """Suffix of an instantiation by the documented rule: explicit template_suffix (for a class: as soon as the
+    key is given), else `_<type>` for one template argument, else `_<index>`."""
+    e = t["explicit"]
+    if (e is not None) if klass else bool(e):
+        return e
+    return FLAT[t["types"][0]] if len(t["types"]) == 1 else "_%d" % i
+
+
+def tmpl_container(path, base, insts, index, fns):
+    """Container for the index-th instantiation of class template `base`; its last path segment is the
+    instantiated class (cxx_class)."""
+    return dict(path=list(path) + [("cls", base + inst_suffix(insts[index], index, True))], fns=fns,
+                tmpl=dict(base=base, index=index, insts=[dict(t) for t in insts]))
 
 
 def program_yaml(prog):
@@ -185,9 +223,29 @@ def program_yaml(prog):
         nodes[path] = d
         return d
 
+    tdone = {}
     for c in prog["containers"]:
-        n = node_for(c["path"])
-        clsname = c["path"][-1][1] if c["path"] and c["path"][-1][0] == "cls" else None
+        if c.get("tmpl"):
+            # all instantiations of one class template share one declaration
+            key = (tuple(c["path"][:-1]), c["tmpl"]["base"])
+            if key in tdone:
+                continue
+            tdone[key] = True
+            parent = node_for(c["path"][:-1])
+            insts = c["tmpl"]["insts"]
+            nt = max(len(t["types"]) for t in insts)
+            n = {"decl": "template<%s> class %s" % (", ".join("typename " + x for x in "TUV"[:nt]), c["tmpl"]["base"]),
+                 "cxx_template": [], "declarations": []}
+            for t in insts:
+                e = {"instantiation": "<%s>" % ",".join(t["types"])}
+                if t["explicit"] is not None:
+                    e["format"] = {"template_suffix": t["explicit"]}
+                n["cxx_template"].append(e)
+            parent["declarations"].append(n)
+            clsname = c["tmpl"]["base"]
+        else:
+            n = node_for(c["path"])
+            clsname = c["path"][-1][1] if c["path"] and c["path"][-1][0] == "cls" else None
         seen = {}
         for fn in c["fns"]:
             ov = seen.get(fn["name"], 0)
@@ -222,8 +280,11 @@ class contextlib_redirect(object):
         sys.stdout = self._o
 
 
-def find_node(lib, path):
+def find_node(lib, path, tmpl=None):
     node = lib.wrap_namespace
+    if tmpl:
+        node = find_node(lib, path[:-1])
+        return [n for n in node.classes if n.name == tmpl["base"]][tmpl["index"]]
     for kind, name in path:
         if is_ns(kind):
             node = [n for n in node.namespaces if n.name == name][0]
@@ -255,7 +316,7 @@ def real_expand(prog):
         lib = real_generate(program_yaml(prog))
     except Exception as e:  # noqa
         return "crash " + type(e).__name__
-    return "#".join(real_records(find_node(lib, c["path"])) for c in prog["containers"])
+    return "#".join(real_records(find_node(lib, c["path"], c.get("tmpl"))) for c in prog["containers"])
 
 
 FLAT = {"int": "_int", "long": "_long", "float": "_float", "double": "_double"}
@@ -272,11 +333,16 @@ def enc_fn(fn):
         common.enc(fn["name"]), str(fn["nparams"]), str(fn["ndefaults"]), enc_opt(fn["suffix"]),
         "+".join(common.enc(s) for s in fn["dsuffix"]) or "~", ti,
         "+".join(enc_opt(g) for g in fn["generics"]) or "~",
-        "1" if fn["hasBuf"] else "0", "1" if fn["isCtor"] else "0"])
+        "1" if fn["hasBuf"] else "0", "1" if fn["isCtor"] else "0", "1" if fn.get("usesT") else "0"])
 
 
 def enc_container(c):
-    path = "/".join({"cls": "c=", "ns": "n=", "nsf": "f="}[k] + common.enc(n) for k, n in c["path"]) or "~"
+    segs = [{"cls": "c=", "ns": "n=", "nsf": "f="}[k] + common.enc(n) for k, n in c["path"]]
+    if c.get("tmpl"):
+        t = c["tmpl"]["insts"][c["tmpl"]["index"]]
+        segs[-1] = "t=%s^%s^%d^%s^%d" % (common.enc(c["tmpl"]["base"]), enc_opt(t["explicit"]), len(t["types"]),
+                                        common.enc(FLAT[t["types"][0]]), c["tmpl"]["index"])
+    path = "/".join(segs) or "~"
     return path + "@" + ("!".join(enc_fn(f) for f in c["fns"]) or "~")
 
 
@@ -399,6 +465,40 @@ def class_programs(thorough, r):
         if idx % 5 == 0:
             conts.append(dict(path=base, fns=[mkfn("scale"), mkfn("scale", nparams=2)]))
         yield dict(library="shapes", wrap=(True, True, False, False), cprefix=None, containers=conts)
+
+
+def class_template_programs(thorough, r):
+    """Class templates with 1-3 instantiations (type-derived, explicit, empty explicit and numbered suffixes),
+    members that use the template parameter and members that do not (overloaded, with default arguments),
+    constructors, next to plain classes and free functions, at library level and in (flattened) namespaces."""
+    inst_sets = [
+        [dict(explicit=None, types=["int"]), dict(explicit=None, types=["double"])],
+        [dict(explicit="_i32", types=["int"]), dict(explicit=None, types=["double"])],
+        [dict(explicit=None, types=["int", "long"]), dict(explicit=None, types=["float", "double"])],
+        [dict(explicit=None, types=["int"]), dict(explicit="_dbl", types=["double"]), dict(explicit=None, types=["long"])],
+        [dict(explicit="", types=["int"])],
+        [dict(explicit=None, types=["float"])],
+    ]
+    member_sets = [
+        lambda: [mkfn("push", usesT=True), mkfn("clear"), mkfn("clear")],
+        lambda: [mkfn("ctor", nparams=0, isCtor=True), mkfn("ctor", nparams=1, isCtor=True), mkfn("push", usesT=True),
+                 mkfn("size", nparams=2, ndefaults=1)],
+        lambda: [mkfn("push", usesT=True), mkfn("push", nparams=2, usesT=True), mkfn("other")],
+        lambda: [mkfn("fill", nparams=2, ndefaults=1, usesT=True), mkfn("clear", suffix="_all")],
+        lambda: [mkfn("getValue", nparams=2, usesT=True), mkfn("setValue", nparams=2, generics=[None, "_dbl"])],
+    ]
+    bases = [[], [("ns", "geo")], [("nsf", "geo")]]
+    k = 0
+    for insts in inst_sets:
+        for ms in member_sets:
+            base = bases[k % 3]
+            k += 1
+            conts = [tmpl_container(base, "vec", insts, i, ms()) for i in range(len(insts))]
+            if k % 2:
+                conts.append(dict(path=base + [("cls", "Plain")], fns=[mkfn("clear"), mkfn("clear")]))
+            if k % 3 == 0:
+                conts.append(dict(path=base, fns=[mkfn("push"), mkfn("push", nparams=2)]))
+            yield dict(library="tpl", wrap=(True, True, False, False), cprefix=None, containers=conts)
 
 
 def batch_programs(progs, size=20):
@@ -525,16 +625,24 @@ def entries_of(fns):
     out = []
     for fn in fns:
         gs = [g if g is not None else "_%d" % j for j, g in enumerate(fn["generics"])]
+        if fn["tinst"] and fn["ndefaults"]:
+            # every instantiation gets its default-argument variants, numbered per instantiation
+            for i, t in enumerate(fn["tinst"]):
+                ts = t["explicit"] or (FLAT[t["types"][0]] if len(t["types"]) == 1 else "_%d" % i)
+                for k in range(fn["ndefaults"] + 1):
+                    e = fn["dsuffix"][k] if k < len(fn["dsuffix"]) else fn["suffix"]
+                    out.append((e if e is not None else "_%d" % k, ts, gs, fn["hasBuf"], True))
+            continue
         for k in range(fn["ndefaults"]):
             e = fn["dsuffix"][k] if k < len(fn["dsuffix"]) else fn["suffix"]
-            out.append((e, "", gs, fn["hasBuf"], bool(fn["tinst"])))
+            out.append((e, "", gs, fn["hasBuf"], bool(fn["tinst"]) or bool(fn.get("usesT"))))
         e = fn["dsuffix"][fn["ndefaults"]] if (fn["ndefaults"] and fn["ndefaults"] < len(fn["dsuffix"])) else fn["suffix"]
         if fn["tinst"]:
             for i, t in enumerate(fn["tinst"]):
                 ts = t["explicit"] or (FLAT[t["types"][0]] if len(t["types"]) == 1 else "_%d" % i)
                 out.append((e, ts, gs, fn["hasBuf"], True))
         else:
-            out.append((e, "", gs, fn["hasBuf"], False))
+            out.append((e, "", gs, fn["hasBuf"], bool(fn.get("usesT"))))
     return out
 
 
@@ -550,6 +658,10 @@ def documented_names(prog):
     for c in prog["containers"]:
         cprefix, cscope, fscope, module, cls = scope_info(prog, c["path"])
         tdoc = {"generic": [], "proc": []}
+        ts0 = ""
+        if c.get("tmpl"):
+            # an explicit template_suffix of the instantiation is inherited by every member
+            ts0 = c["tmpl"]["insts"][c["tmpl"]["index"]]["explicit"] or ""
         if cls is not None:
             TYPE_DOC.append((cls.lower(), tdoc))
         groups = {}
@@ -562,6 +674,7 @@ def documented_names(prog):
             members = []
             u = doc_un_camel(name)
             for (e, ts, gs, hb, templ) in ents:
+                ts = ts or ts0
                 if templ:
                     sfx = e or ""
                 else:
@@ -606,8 +719,11 @@ def in_domain(prog):
             fst.setdefault(module, []).append((fscope + u).lower())
             expl = []
             for fn in fns:
+                if fn.get("usesT") and (fn["ndefaults"] or len(fns) > 1 or fn["generics"] or fn["hasBuf"]):
+                    return False
                 if fn["tinst"]:
-                    if fn["ndefaults"] or len(fns) > 1:
+                    if len(fns) > 1 or (fn["ndefaults"] and (fn["suffix"] is not None or
+                                                            0 < len(fn["dsuffix"]) <= fn["ndefaults"])):
                         return False
                     ts = [t["explicit"] or (FLAT[t["types"][0]] if len(t["types"]) == 1 else "_%d" % i)
                           for i, t in enumerate(fn["tinst"])]
@@ -621,7 +737,7 @@ def in_domain(prog):
                     expl.append(e)
             if any(AUTO.match(e) or not TOKEN.match(e) or e == "_bufferify" for e in expl):
                 return False
-            if any(fn["tinst"] for fn in fns):
+            if any(fn["tinst"] or fn.get("usesT") for fn in fns):
                 continue
             if len(set(expl)) != len(expl):
                 return False
@@ -776,6 +892,7 @@ def scan_outputs(files, prefix):
     return problems, cdefs, ftab
 
 
+MT_REQS = []   # (prog, model request lines, PyMethodDef key lists, luaL_Reg tables)
 GI_REQS = []   # (prog, model request lines, parsed interfaces) collected for the generic-table correspondence
 
 
@@ -797,9 +914,8 @@ def oracle_full(ctx, prog, tag):
         has_tdef = any(fn["tinst"] and fn["ndefaults"] for c in prog["containers"] for fn in c["fns"])
         if exc is not None:
             if has_tdef:
-                return ctx.fail("template-default-args", "function template with default arguments: generation raises %s "
-                                "(the default-argument clones are never instantiated), no wrapper for these signatures"
-                                % type(exc).__name__, replay)
+                return ctx.fail("template-default-args", "function template with default arguments: generation raises %s, "
+                                "no wrapper for these signatures" % type(exc).__name__, replay)
             ctx.note("generation_errors", ctx.notes.get("generation_errors", 0) + 1)
             ctx.notes.setdefault("generation_error_samples", [])
             if len(ctx.notes["generation_error_samples"]) < 3:
@@ -854,6 +970,15 @@ def oracle_full(ctx, prog, tag):
         reqs = [("gi %s %s %s" % (w, lib, enc_container(c)),
                  c["path"][-1][1].lower() if (c["path"] and c["path"][-1][0] == "cls") else None) for c in prog["containers"]]
         GI_REQS.append((prog, reqs, got, sorted((t, k, m) for t, g in tg for k, m in g)))
+        if prog["wrap"][2] or prog["wrap"][3]:
+            pyt, luat = [], {}
+            for fn_, data in files.items():
+                for tname, keys in method_tables(fn_, data.decode()).items():
+                    if tname.startswith("py:"):
+                        pyt.append(keys)
+                    else:
+                        luat[tname[4:]] = keys
+            MT_REQS.append((prog, [q.replace("gi ", "mt ", 1) for q, _ in reqs], pyt, luat))
         return failed
     finally:
         common.rmtree(d)
@@ -891,6 +1016,48 @@ def gi_correspondence(ctx, drv):
     ctx.note("type_bound_generics_compared", ntb)
     if bad:
         ctx.tie_broken("generic-table-correspondence", bad[:3])
+
+
+def mt_correspondence(ctx, drv):
+    """Tie: the model's PyMethodDef / luaL_Reg keys per scope (driver op `mt`) vs the tables parsed from the
+    generated Python and Lua sources."""
+    bad = []
+    lines = [q for _, reqs, _, _ in MT_REQS for q in reqs]
+    if not lines:
+        return
+    res = iter(drv.run(lines))
+    for prog, reqs, pyt, luat in MT_REQS:
+        mpy, mlua_mod, mlua_cls = [], [], []
+        clsnames = set()
+        for c in prog["containers"]:
+            t = next(res)
+            pk, lk = [common.decs(x[2:]) for x in t.split(" ")]
+            iscls = bool(c["path"]) and c["path"][-1][0] == "cls"
+            if prog["wrap"][2] and pk:
+                mpy.append(pk)
+            if prog["wrap"][3]:
+                if iscls:
+                    clsnames.add(c["path"][-1][1])
+                    if lk:
+                        mlua_cls.append(sorted(lk))
+                else:
+                    mlua_mod.extend(lk)
+        ctx.count(1)
+        ok = True
+        if prog["wrap"][2] and sorted(mpy) != sorted(k for k in pyt if k):
+            ok = False
+        if prog["wrap"][3]:
+            mods = [v for k, v in luat.items() if k.endswith("_Reg") and k[2:-4] == prog["library"]]
+            clss = sorted(sorted(v) for k, v in luat.items() if not (k.endswith("_Reg") and k[2:-4] == prog["library"]) and v)
+            got_mod = sorted(x for v in mods for x in v if x not in clsnames)
+            if got_mod != sorted(mlua_mod) or clss != sorted(mlua_cls):
+                ok = False
+        if not ok:
+            bad.append({"prog": prog, "model": {"py": mpy, "lua_module": mlua_mod, "lua_class": mlua_cls},
+                        "impl": {"py": pyt, "lua": luat}})
+    ctx.note("method_tables_compared", len(MT_REQS))
+    if bad:
+        ctx.tie_broken("method-table-correspondence", bad[:3])
 
 
 # ------------------------------------------------------------------ documented reference outputs
@@ -987,7 +1154,8 @@ def distribution(progs):
             "class_in_namespace": 0, "same_name_in_two_scopes": 0, "explicit_C_prefix": 0, "with_defaults": 0,
             "with_template": 0, "with_generics": 0, "with_bufferify": 0, "with_ctor": 0, "overload_sets>=2": 0,
             "explicit_suffix": 0, "modules_with>=2_classes": 0, "method_name_shared_by_classes": 0,
-            "shared_method_overloaded_in_some_single_in_others": 0}
+            "shared_method_overloaded_in_some_single_in_others": 0,
+            "class_template_instantiations": 0, "members_using_template_parameter": 0}
     for p in progs:
         dist["containers"] += len(p["containers"])
         if p.get("cprefix") is not None:
@@ -1000,6 +1168,8 @@ def distribution(progs):
             dist["depth>=2"] += nsdepth >= 2
             dist["depth>=3"] += nsdepth >= 3
             dist["class_in_namespace"] += bool(path) and path[-1][0] == "cls" and nsdepth >= 1
+            dist["class_template_instantiations"] += bool(c.get("tmpl"))
+            dist["members_using_template_parameter"] += sum(1 for f in c["fns"] if f.get("usesT"))
             seen = {}
             for f in c["fns"]:
                 dist["functions"] += 1
@@ -1035,27 +1205,33 @@ def distribution(progs):
 def run(ctx):
     thorough = ctx.tier == "thorough"
     del GI_REQS[:]
+    del MT_REQS[:]
     ok = ctx.lean(MODULES, THEOREMS, extra_targets=("drv_names",))
     drv = common.Driver("drv_names")
     r = common.rng("c08")
     ctx.cov["trusted_base"] = [
         "Lean 4.33.0 kernel; axioms within {propext, Classical.choice, Quot.sound}",
-        "hand-written model Model/Names.lean of define_function_suffix / Namify / un_camel, tied by differential correspondence",
+        "hand-written model Model/Names.lean of define_function_suffix (incl. class-template instantiation scopes) / Namify / un_camel / "
+        "wrapf generic tables / wrapp+wrapl method tables, tied by differential correspondence",
         "identifiers and suffixes are ASCII (str.isupper/islower/lower modelled on ASCII)",
         "documented names: regression/reference/<config> of the checkout, corpus/c08_uncamel.txt, the name templates of docs/reference.rst",
     ]
     ctx.cov["rule"] = ("expansion: every per-function configuration below the bound (<=2 defaults x <=2 instantiations x <=2 generics x "
                        "explicit/default suffixes), all pairs/triples of overloads over reduced configurations, <=3 names, namespaces nested "
-                       "up to 3 deep with and without F_flatten_namespace, classes inside namespaces, same names in several scopes, explicit "
-                       "C_prefix, all wrap-flag combinations; seeded random programs above the bound. un_camel: every string over "
+                       "up to 3 deep with and without F_flatten_namespace, classes inside namespaces, 2-4 classes per module sharing method names, "
+                       "class templates with 1-3 instantiations and members using the template parameter, same names in several scopes, "
+                       "explicit C_prefix, all wrap-flag combinations; seeded random programs above the bound. un_camel: every string over "
                        "{a,B,C,1,_} up to a length bound + random identifiers + frozen documented table. Non-trivial = the implementation "
                        "produced at least one clone; distinct = distinct request lines.")
     ctx.assumptions += [
         "theorems are about the Lean model; the model is validated against the Python code by differential testing on generated inputs only",
-        "distinctness is proved inside the stated domain (CoreOK / ExtOK / ScopesSep): explicit suffixes attached to the entry points of one "
-        "name pairwise distinct single `_token`s not of the form _<digits>, templated functions without default arguments, bufferify or "
-        "fortran_generic and alone in their name, scope + underscore forms of different names not prefixes of one another",
-        "class template instantiation, return_this, CFI, assumed-rank, fortran_generic_c variants are not modelled",
+        "distinctness is proved inside the stated domain (CoreOK / FortranOK / ScopesSep / FScopesSep / PyNamesPF): explicit suffixes attached "
+        "to the entry points of one name pairwise distinct single `_token`s not of the form _<digits>, templated entry points (function "
+        "templates, members using a class template parameter) without bufferify or fortran_generic and sharing their name only with "
+        "templated entry points of different suffixes, scope + underscore forms of different names not prefixes of one another",
+        "module_entities_distinct_partial takes as given that no generic interface name equals a specific and that derived-type / "
+        "enumeration names are apart from both (those names are not modelled)",
+        "return_this, CFI, assumed-rank, fortran_generic_c variants and format overrides of single names are not modelled",
     ]
     from shroud import ast as sast, util as sutil
 
@@ -1107,6 +1283,7 @@ def run(ctx):
     ncorpus = len(progs)
     progs.extend(scope_programs(thorough, r))
     progs.extend(class_programs(thorough, r))
+    progs.extend(class_template_programs(thorough, r))
     nscope = len(progs) - ncorpus
     progs.extend(exhaustive_programs(thorough, r))
     nexh = len(progs) - ncorpus - nscope
@@ -1197,17 +1374,18 @@ def run(ctx):
     scoped = [p for p in cand if len(p["containers"]) > 1 or p["containers"][0]["path"]]
     plain = [p for p in cand if not (len(p["containers"]) > 1 or p["containers"][0]["path"])]
     nfull = (300 if thorough else 22) * (3 if ctx.broken else 1)
-    pick = ([p for p in progs[:ncorpus] if in_domain(p)] +
+    tmplc = [p for p in cand if any(c.get("tmpl") for c in p["containers"])]
+    pick = ([p for p in progs[:ncorpus] if in_domain(p)] + tmplc[:: max(1, len(tmplc) // (18 if thorough else 5))] +
             scoped[:: max(1, len(scoped) // nfull)][:nfull] + plain[:: max(1, len(plain) // nfull)][:nfull])
     # make sure the scanners see Python and Lua tables as well
     extra = []
-    for p in pick[:: max(1, len(pick) // (40 if thorough else 6))]:
+    for p in pick[:: max(1, len(pick) // (60 if thorough else 10))]:
         q = normalize(json.loads(json.dumps(p)))
         q["wrap"] = (True, True, True, True)
         # Python/Lua method tables are flat per module/class: names must be distinct program-wide there
         clsn = [c["path"][-1][1] for c in q["containers"] if c["path"] and c["path"][-1][0] == "cls"]
         free = [n for c in q["containers"] if not (c["path"] and c["path"][-1][0] == "cls") for n in {f["name"] for f in c["fns"]}]
-        if (not any(fn["tinst"] or fn["hasBuf"] for c in q["containers"] for fn in c["fns"])
+        if (not any(fn["hasBuf"] for c in q["containers"] for fn in c["fns"])
                 and len(set(clsn)) == len(clsn) and len(set(free)) == len(free)):
             extra.append(q)
     nfail = 0
@@ -1216,11 +1394,12 @@ def run(ctx):
             nfail += 1
             if nfail > 3:
                 break
-    # template + default arguments: inside the property's quantifier, known finding
-    oracle_full(ctx, root_prog([mkfn("tmpl", nparams=2, ndefaults=1, tinst=TK[2])]), "full")
+    # template + default arguments (repaired in /repo d5349c7): (d+1) x t entry points with documented names
+    oracle_full(ctx, root_prog([mkfn("tmpl", nparams=3, ndefaults=2, tinst=TK[2])]), "full")
     ctx.note("full_generations", len(pick) + len(extra) + 1)
     if drv.available() and ok:
         gi_correspondence(ctx, drv)
+        mt_correspondence(ctx, drv)
 
 
 def replay(path):
